@@ -79,10 +79,13 @@ def actions(tier):
     A.append(("replay-first", ["replay {X} 0 0"]))
     A.append(("replay-last", ["replay {X} 0 -1"]))
     A.append(("reflect-last", ["reflect {T} -1"]))
-    A.append(("hs-del0", ["hsedit {X} del 0"]))
-    A.append(("hs-del1", ["hsedit {X} del 1"]))
-    A.append(("hs-dup0", ["hsedit {X} dup 0"]))
-    A.append(("hs-swap01", ["hsedit {X} swap 0 1"]))
+    for i in range(5):
+        A.append(("hs-del%d" % i, ["hsedit {X} del %d" % i]))
+        A.append(("hs-dup%d" % i, ["hsedit {X} dup %d" % i]))
+    for i in range(4):
+        A.append(("hs-swap%d%d" % (i, i + 1), ["hsedit {X} swap %d %d" % (i, i + 1)]))
+    A.append(("hs-swap02", ["hsedit {X} swap 0 2"]))
+    A.append(("hs-split", ["hsedit {X} split 0"]))
     A.append(("none", []))
     return A
 
